@@ -143,6 +143,46 @@ def returned_consts(M, fl, ret):
     return {"?"}
 
 
+DET3 = {((0, 0), (1, 1), (2, 2)): 1, ((0, 1), (1, 2), (2, 0)): 1, ((0, 2), (1, 0), (2, 1)): 1,
+        ((0, 2), (1, 1), (2, 0)): -1, ((0, 1), (1, 0), (2, 2)): -1, ((0, 0), (1, 2), (2, 1)): -1}
+
+
+def entry_poly(e, env, depth=0):
+    """polynomial {sorted tuple of (row, col) entries: coefficient} of an arithmetic expression over the entries `R[..., i, j]` of one stack of
+    3x3 matrices (the leading index may be a slice / Ellipsis); returns (polynomial, name of the stack) or None"""
+    if depth > 30:
+        return None
+    if isinstance(e, ast.Name) and e.id in env:
+        return entry_poly(env[e.id], env, depth + 1)
+    if isinstance(e, ast.Constant) and isinstance(e.value, int) and not isinstance(e.value, bool):
+        return ({(): e.value} if e.value else {}), None
+    if isinstance(e, ast.Subscript) and isinstance(e.slice, ast.Tuple) and len(e.slice.elts) >= 2 \
+            and all(isinstance(x, ast.Constant) and isinstance(x.value, int) for x in e.slice.elts[-2:]) \
+            and all(isinstance(x, ast.Slice) or (isinstance(x, ast.Constant) and x.value is Ellipsis) for x in e.slice.elts[:-2]):
+        return {((e.slice.elts[-2].value, e.slice.elts[-1].value),): 1}, ast.unparse(e.value)
+    if isinstance(e, ast.UnaryOp) and isinstance(e.op, ast.USub):
+        r = entry_poly(e.operand, env, depth + 1)
+        return ({k: -v for k, v in r[0].items()}, r[1]) if r else None
+    if isinstance(e, ast.BinOp) and isinstance(e.op, (ast.Add, ast.Sub, ast.Mult)):
+        a, b = entry_poly(e.left, env, depth + 1), entry_poly(e.right, env, depth + 1)
+        if a is None or b is None or (a[1] and b[1] and a[1] != b[1]):
+            return None
+        nm = a[1] or b[1]
+        out = {}
+        if isinstance(e.op, ast.Mult):
+            for k1, v1 in a[0].items():
+                for k2, v2 in b[0].items():
+                    k = tuple(sorted(k1 + k2))
+                    out[k] = out.get(k, 0) + v1 * v2
+        else:
+            sg = 1 if isinstance(e.op, ast.Add) else -1
+            out = dict(a[0])
+            for k2, v2 in b[0].items():
+                out[k2] = out.get(k2, 0) + sg * v2
+        return {k: v for k, v in out.items() if v}, nm
+    return None
+
+
 def run(rep, ctx):
     try:
         _run(rep, ctx)
@@ -165,6 +205,24 @@ def _run(rep, ctx):
 
     has_scan = any(isinstance(n, (ast.For, ast.While, ast.GeneratorExp, ast.ListComp)) for n in ast.walk(fn))
     vdet = [c for c in ast.walk(fn) if isinstance(c, ast.Call) and ext_name(M, FQ, c.func) == "numpy.linalg.det" and c.args]
+    if not has_scan and not vdet:
+        # an explicit determinant written out over the entries of the stack of rotations (cofactor / Sarrus expansion)
+        envp = {}
+        for s2 in ast.walk(fn):
+            if isinstance(s2, ast.Assign) and len(s2.targets) == 1 and isinstance(s2.targets[0], ast.Name):
+                envp.setdefault(s2.targets[0].id, s2.value)
+        for nm2, ex in envp.items():
+            pr = entry_poly(ex, {k: v for k, v in envp.items() if k != nm2})
+            if pr and pr[1] and any(len(k) == 3 for k in pr[0]):
+                if pr[0] == DET3:
+                    rep.ok("R15.2", f"get_is_chiral: `{nm2}` is the exact determinant of the 3x3 integer matrices (6 signed products, verified symbolically)")
+                    raise AnalysisError("get_is_chiral: explicit integer determinant recognised, but the reduction that follows it is not modelled yet")
+                wrong = sorted((k, pr[0].get(k, 0), DET3.get(k, 0)) for k in set(pr[0]) | set(DET3) if pr[0].get(k, 0) != DET3.get(k, 0))
+                rep.violation("R15.2", f"get_is_chiral: `{nm2}` written out over the matrix entries", "the expression is not the determinant: coefficient of "
+                              + "; ".join("*".join(f"r{i}{j}" for i, j in k) + f" is {g:+d} instead of {w:+d}" for k, g, w in wrong[:4])
+                              + ". Matrices with a non-zero entry in those positions get the wrong sign, so e.g. the cubic Sohncke groups are reported achiral", M.where(FQ, ex))
+                rep.rule("R15.4", "every memoised result of the analyzer is dropped by reset(), which set_system() calls (no answers for a previous structure)")
+                return
     if not has_scan and not vdet:
         table_mode(rep, ctx, M, fn)
         return
